@@ -681,9 +681,9 @@ def _configs(tier):
         for d in (False, True):
             for split in ((True, False, "auto") if d else ("auto",)):
                 for ow in (False, True, "improved"):
-                    for sl in (None, 4):
-                        for mode in ("search", "mixed"):
-                            out.append(({"kind": "hyper", "hash": h, "dir": d, "split": split, "overwrite": ow, "slicing": sl, "mode": mode}, POOL_SMALL, 3, False))
+                    combos = ((None, "search"), (4, "mixed")) if quick else ((None, "search"), (None, "mixed"), (4, "search"), (4, "mixed"))
+                    for sl, mode in combos:
+                        out.append(({"kind": "hyper", "hash": h, "dir": d, "split": split, "overwrite": ow, "slicing": sl, "mode": mode}, POOL_SMALL, 3, False))
     # cache_only, with the switch at every position
     for h in ("a", "b"):
         for d in (False, True):
@@ -764,7 +764,7 @@ def run_bounded(rep: Report, tier: str) -> None:
             rep.fired(k, v)
         for sig, case, detail in viol:
             add(sig, case, detail)
-        if key is not None and nseq % 4999 == 0:
+        if key is not None and (nseq % 4999 == 0 or not rep.samples):
             rep.sample(info)
         if time.time() > dl or nviol >= 5:
             stop = True
